@@ -73,6 +73,7 @@ type Cell struct {
 	V    Value
 	Name string // for globals / debugging
 	id   int
+	local bool // allocated inside an errgroup task
 }
 
 // PtrV: pointer to a location: cell plus a path of field / element indices.
@@ -149,7 +150,8 @@ type DecV struct {
 
 // TimeV: time.Time as nanoseconds since Unix epoch (Int sort). Zero time.Time is a distinguished constant.
 type TimeV struct {
-	T *Term // BV128: nanoseconds since the Unix epoch
+	T    *Term // BV128: nanoseconds since the Unix epoch
+	Secs *Term // BV64 Unix seconds when known separately (wall-clock readings)
 }
 
 // OpaqueV: a value of a dependency type we do not model structurally.
